@@ -13,18 +13,19 @@ Definition dNc (p : R) : R := wgs84_e2 * sin p * cos p * (Nc p)^3.
 Definition NcSin (p : R) : R := Nc p * sin p.
 Definition dNcSin (p : R) : R := dNc p * sin p + Nc p * cos p.
 
-Lemma Nc_is_derive p : is_derive Nc p (dNc p).
+Lemma Nc_is_derive (p : R) : is_derive Nc p (dNc p).
 Proof.
   unfold dNc, Nc.
   pose proof (Nc_den_pos p) as Hd. pose proof (sqrt_Nc_den_pos p) as Hs.
+  assert (Eq : 1 + - (wgs84_e2 * (sin p * (sin p * 1))) = 1 - wgs84_e2 * sin p ^ 2) by ring.
   auto_derive.
-  - split; [exact Hd|]. split; [apply Rgt_not_eq; exact Hs|exact I].
+  - rewrite Eq. split; [exact Hd|]. split; [apply Rgt_not_eq; exact Hs|exact I].
   - replace (1 + - (wgs84_e2 * (sin p * (sin p * 1)))) with (1 - wgs84_e2 * sin p ^ 2) by ring.
     set (s := sqrt (1 - wgs84_e2 * sin p ^ 2)) in *.
-    field. apply Rgt_not_eq. exact Hs.
+    clearbody s. clear Eq Hd. field. lra.
 Qed.
 
-Lemma NcSin_is_derive p : is_derive NcSin p (dNcSin p).
+Lemma NcSin_is_derive (p : R) : is_derive NcSin p (dNcSin p).
 Proof.
   unfold NcSin, dNcSin.
   pose proof (Nc_is_derive p) as H.
